@@ -22,6 +22,16 @@
          ``state.process`` is invoked, ``on_cancel`` runs once, no error outcome, an empty stream is returned;
          flag unset => exactly one turn runner, no on_cancel; no token / unknown state type => refused
          without touching a state. Replay (real falcon app + HttpStreamSession) follows the cancel flag.
+(e) xh : HTTP producer streams end to end — the real ``_run_http_producer_turn`` (init turn through
+         ``_run_http_producer_init``, continuation turns through ``_run_stream_exchange_sync``) answering the real
+         client (``_HttpProxy`` stream caller -> ``_init_http_stream_session`` -> ``HttpStreamSession.__iter__`` /
+         ``_send_continuation`` / ``cancel``) under a *symbolic step script* and a *symbolic max_response_bytes*
+         (= every way of cutting the steps into HTTP turns, incl. the whole stream folded into /init).
+         Decided: the caller iterating the session receives exactly the emitted batches in order, ending at finish
+         (emit+finish delivers the batch), error iff the state failed; and for every cancel point (caller took
+         0..k batches, then ``cancel()``): the state is never processed again, on_cancel at most once (once when
+         live), cancel() reports no error, the held iterator and a fresh iteration hand out nothing more.
+         Replay: make_sync_client + http_connect (real falcon app, real tokens), judged from the state's own record.
 """
 
 from __future__ import annotations
@@ -56,13 +66,17 @@ BOUNDS = (
     "collector: every op script of length <= %d (quick 4 / thorough 5) over 5 ops, both modes; "
     "socket loop: every producer step script <= 4 steps (5 kinds quick, 6 thorough) and every exchange response script "
     "<= %d steps (quick 3 / thorough 4), 0..n inputs followed by EOS or by a cancel batch plus one further input, on_cancel raising or not; "
+    "HTTP producer end to end (server turn runner + client session): every step script <= 4 steps then finish, every max_response_bytes in 1..%d or unset; "
+    "HTTP cancel points: scripts <= %d steps then finish, cancel after 0..%d received batches, every max_response_bytes as before, on_cancel raising or not; "
     "HTTP cancel branch: all 32 combinations of its five boolean inputs; input coercion: all 486 perturbations of a 3-column input (order x type variant x field set) "
     "on _coerce_input_batch and all 54 of a 2-column input through the socket loop. pyarrow objects are concrete."
-) % (pick(4, 5), pick(3, 4))
+) % (pick(4, 5), pick(3, 4), pick(4096, 65536), pick(3, 4), pick(3, 4))
 OUTSIDE = (
     "Arrow's own select/cast semantics (run concretely: which type pairs Arrow considers castable is taken from pyarrow, only three variants per column are used); stream headers; "
-    "HTTP producer/exchange turn runners (stubbed in (c): only the branch selection is decided); "
-    "client session objects (StreamSession/HttpStreamSession) refusing use after cancel — judged only in the (b) and (c) replays (public client), not by the solver; "
+    "the HTTP exchange turn runner (stubbed in (c): only the branch selection is decided; the producer turn runner is real in (e)); "
+    "the socket client session (StreamSession) and HttpStreamSession.exchange refusing use after cancel — judged only in the (b) and (c) replays (public client), not by the solver "
+    "(HttpStreamSession iteration + cancel is decided in (e)); HttpStreamSession.next_with_token / seek_to_token; the falcon resources, middleware, compression and real token sealing "
+    "(in (e) a POST runs the route function directly; they are exercised in the (e) replays only); "
     "class and wording of any error (only present/absent), whether the request stream is drained (C04), which metadata keys carry a log's level / server id (C08), "
     "HTTP status of a refused exchange request, what a producer tick that neither emits nor finishes must do; "
     "lock-step interleaving of client and server (requests are pre-buffered in memory); shm / external-location routes; "
@@ -72,6 +86,8 @@ ASSUMPTIONS = [
     "the producer/exchange state is a harness class whose process() follows the symbolic script; batches are 8 fixed 1-row int64 batches",
     "in (b) the request stream is fully buffered before the server loop starts (BytesIO), so back-pressure/blocking is not modelled",
     "in (c) the cursor token opens to the minted state (ideal AEAD) and the two turn runners are the only code that calls state.process",
+    "in (e) a cursor token opens to the producer position it was minted at (ideal AEAD; a stale token rewinds the producer, an unknown one is outside the model); "
+    "the call token is not checked; the HTTP client/resource layer is a direct call of the route function (status translation not modelled: the client under test only reads 401 from it)",
 ]
 
 _SCHEMA = pa.schema([pa.field("v", pa.int64())])
@@ -241,6 +257,7 @@ from vgi_rpc.utils import IpcValidation, ValidatedReader, empty_batch  # noqa: E
 _EMIT, _EMIT_FINISH, _FINISH, _LOG_EMIT, _RAISE, _NOTHING = 0, 1, 2, 3, 4, 5
 _HOLD: dict = {"script": (0, 0, 0, 0), "i": 0, "calls": 0, "cancels": 0, "cancel_raises": False, "after_cancel": 0}
 _IN_SCHEMA = pa.schema([pa.field("x", pa.int64())])
+_RUNAWAY = 24
 
 
 def _reset_hold(script: tuple, cancel_raises: bool) -> None:
@@ -268,6 +285,9 @@ def _step(out, ctx) -> None:  # type: ignore[no-untyped-def]
         _HOLD["after_cancel"] += 1
     if _HOLD["ended"]:
         _HOLD["after_end"] += 1
+    if _HOLD["calls"] > _RUNAWAY:
+        _HOLD["ev"].append("runaway")
+        raise RuntimeError("the state is processed without end")  # ends a stream that a rewinding client would keep alive for ever
     if i >= len(_BATCHES):
         raise HarnessModelError("state processed more often than the harness has batches")
     # a call beyond the script (only possible when the server processes something it must not) emits
@@ -302,7 +322,14 @@ def _cancel() -> None:
 
 @dataclass
 class _GenState(ProducerState):
+    pos: int = 0  # the producer's position travels with the state (over HTTP: inside the cursor token)
+
     def produce(self, out, ctx) -> None:  # type: ignore[no-untyped-def]
+        if self.pos != _HOLD["i"]:
+            # resumed from a state that is not the latest one (a stale cursor token): the script rewinds with it
+            _HOLD["ev"].append("rewound")
+            _HOLD["i"] = self.pos
+        self.pos += 1
         _step(out, ctx)
 
     def on_cancel(self, ctx) -> None:  # type: ignore[no-untyped-def]
@@ -510,7 +537,7 @@ _SERVE_ENCODED = [srv.RpcServer._serve_stream, wire._flush_collector, wire._read
 
 def _state_failed(ev: list, exchange: bool) -> bool:
     """Did the state itself fail (raise / have finish refused / give an exchange no output)? — from what it recorded."""
-    return "raised" in ev or "finish-refused" in ev or (exchange and "nothing" in ev)
+    return "raised" in ev or "runaway" in ev or "finish-refused" in ev or (exchange and "nothing" in ev)
 
 
 def _relational_problems(label: str, exchange: bool, data: list, err) -> list:  # type: ignore[no-untyped-def]
@@ -1078,3 +1105,373 @@ def exchange_input_reaches_state_with_declared_schema(perm: int, t0: int, t1: in
     post: _
     """
     return _co_socket(_ci(perm, 2), (_ci(t0, 3), _ci(t1, 3)), _ci(fieldset, 3), real=False)
+
+
+# ---------------------------------------------------------------------------
+# (e) HTTP producer streams end to end: the real server turn runner + the real client session
+# ---------------------------------------------------------------------------
+# What the caller of ``proxy.gen()`` receives when it iterates the session the real ``_HttpProxy``
+# hands back: the init turn and every continuation turn are the real ``_run_http_producer_turn``
+# (through the real ``_run_http_producer_init`` / ``_run_stream_exchange_sync``), the client is the real
+# ``_make_stream_caller`` -> ``_init_http_stream_session`` -> ``HttpStreamSession.__iter__`` /
+# ``_send_continuation``.  Symbolic: the producer step script and ``max_response_bytes`` (which decides
+# how the steps are cut into HTTP turns: one step per turn when unset, the whole stream folded into
+# /init when large, everything in between).
+
+from http import HTTPStatus  # noqa: E402
+
+from vgi_rpc.http import _client as hcl  # noqa: E402
+from vgi_rpc.http.server._responses import _current_response_status, _error_response_stream  # noqa: E402
+from vgi_rpc.rpc import _ClientLogSink  # noqa: E402
+from vgi_rpc.rpc._common import _ANONYMOUS  # noqa: E402
+
+_CUR_TOKENS = tuple(b"CUR-%d" % i for i in range(len(_BATCHES) + 1))
+_CUR_INDEX = {tok: i for i, tok in enumerate(_CUR_TOKENS)}
+_CUR_PLAIN = tuple(b"plain-%d" % i for i in range(len(_BATCHES) + 1))
+_HP_LOGS: list = []
+
+
+def _stub_mint_cursor(state, state_info, call_id, token_key, auth, *a, **k):  # type: ignore[no-untyped-def]
+    """Ideal AEAD: a cursor token stands for the producer's position at the moment it was minted."""
+    i = state.pos
+    if i >= len(_CUR_TOKENS):
+        raise HarnessModelError("cursor minted beyond the modelled positions")
+    return _CUR_TOKENS[i], _CUR_PLAIN[i]
+
+
+def _stub_recover_cursor(app, token, call_token, state_info, auth, *rest):  # type: ignore[no-untyped-def]
+    """Ideal AEAD: a presented cursor token opens to the state *as minted* (HTTP keeps no state between requests:
+    a stale token rewinds the producer, a token the server never issued is outside the model)."""
+    pos = _CUR_INDEX.get(token)
+    if pos is None:
+        raise HarnessModelError("a cursor token the server never minted")
+    return _GenState(pos=pos), _ResolvedCall(None, _SCHEMA, _EMPTY_SCHEMA, "sid"), b"callid", _CUR_PLAIN[pos]
+
+
+_producer_turn_rg = reglobalize(aps._run_http_producer_turn, _mint_cursor_token=_stub_mint_cursor)
+_producer_init_rg = reglobalize(aps._run_http_producer_init, _run_http_producer_turn=_producer_turn_rg)
+_exchange_sync_turn_rg = reglobalize(
+    aps._run_stream_exchange_sync,
+    _unpack_and_recover_state=_stub_recover_cursor,
+    _run_http_producer_turn=_producer_turn_rg,
+    _dispatch_telemetry=_telemetry,
+)
+_GEN_INFO = _SERVER.methods["gen"]
+
+
+class _HttpProdApp(_FakeApp):
+    """The slice of _HttpRpcApp the producer turn reads (anything else: HarnessModelError from _FakeApp)."""
+
+    _max_externalized_response_bytes = None
+    _token_key = b"k" * 32
+
+    def __init__(self, max_response_bytes) -> None:  # type: ignore[no-untyped-def]
+        self._state_types = {"gen": object()}
+        self._max_response_bytes = max_response_bytes
+
+
+class _HttpResp:
+    def __init__(self, content: bytes, status_code: int) -> None:
+        self.content = content
+        self.status_code = status_code
+
+    def __getattr__(self, name: str):  # type: ignore[no-untyped-def]
+        raise HarnessModelError("HTTP response stub touched through " + name)
+
+
+class _TurnClient:
+    """Stands where httpx / the WSGI test client and the falcon resources stand: a POST runs the real server-side
+    function for that route on the request bytes and hands its body back (a refused request is answered with the
+    real error stream, as the resources do)."""
+
+    prefix = ""
+    app = None
+
+    def post(self, url, *, content, headers=None, **kw):  # type: ignore[no-untyped-def]
+        tok = _current_response_status.set(HTTPStatus.OK)
+        try:
+            try:
+                if url == "/gen/init":
+                    body = _producer_init_rg(
+                        self.app, info=_GEN_INFO, result=_Impl().gen(), sink=_ClientLogSink(server_id="srv"), method_name="gen",
+                        stream_id="sid", call_id=b"callid", call_token=b"CALL", call_state_bytes=b"", auth=_ANONYMOUS,
+                        transport_metadata={}, outcome=aps._DispatchOutcome(),
+                    )
+                elif url == "/gen/exchange":
+                    body = _exchange_sync_turn_rg(self.app, "gen", BytesIO(content))
+                else:
+                    raise HarnessModelError("unexpected route " + url)
+            except _RpcHttpError as e:
+                return _HttpResp(_error_response_stream(e.cause, e.schema, server_id="srv").getvalue(), int(e.status_code))
+            return _HttpResp(body.read(), 200)
+        finally:
+            _current_response_status.reset(tok)
+
+    def __getattr__(self, name: str):  # type: ignore[no-untyped-def]
+        raise HarnessModelError("HTTP client stub touched through " + name)
+
+
+_TURN_CLIENT = _TurnClient()
+_HTTP_PROXY = hcl._HttpProxy(_Proto, _TURN_CLIENT, "", on_log=_HP_LOGS.append, compression_level=None)
+_MRB_MAX = pick(4096, 65536)
+
+
+def _is_prefix(got: list, want: list) -> bool:
+    if len(got) > len(want):
+        return False
+    for j in range(len(got)):
+        if got[j] != want[j]:
+            return False
+    return True
+
+
+def _http_producer_script(mrb: int, script: tuple) -> bool:
+    full = script + (_FINISH,)  # every script ends: a step after the symbolic ones finishes
+    _reset_hold(full, False)
+    _H["outcomes"] = []
+    del _HP_LOGS[:]
+    _TURN_CLIENT.app = _HttpProdApp(None if mrb == 0 else mrb)
+    got: list = []
+    err = None
+    try:
+        for ab in _HTTP_PROXY.gen():
+            got.append(ab.batch)
+    except RpcError as e:
+        err = e
+    except HarnessModelError:
+        raise
+    except Exception:  # noqa: BLE001
+        return False
+
+    # ---- reference, written from the property statement -------------------
+    want_data: list = []
+    want_logs: list = []
+    want_err = False
+    want_calls = 0
+    for i in range(len(full)):
+        k = full[i]
+        want_calls += 1
+        if k == _EMIT:
+            want_data.append(i)
+        elif k == _LOG_EMIT:
+            want_logs.append(i)
+            want_data.append(i)
+        elif k == _EMIT_FINISH:
+            want_data.append(i)  # emit and finish in the same step still delivers that batch
+            break
+        elif k == _FINISH:
+            break
+        elif k == _RAISE:
+            want_err = True
+            break
+        else:
+            if err is None:
+                raise HarnessModelError("producer tick that neither emits nor finishes was tolerated: outside the model")
+            want_err = True
+            break
+    # one process() per step up to the end of the stream, never again afterwards; no cancel was sent
+    if _HOLD["calls"] != want_calls or _HOLD["after_end"] != 0 or _HOLD["cancels"] != 0:
+        return False
+    if (err is not None) != want_err:
+        return False
+    got_idx: list = []
+    for b in got:
+        j = -1
+        for i in want_data:
+            if b.equals(_BATCHES[i]):
+                j = i
+        got_idx.append(j)
+    got_logs = [m.message for m in _HP_LOGS]
+    want_log_text = [_LOG_TEXT[i] for i in want_logs]
+    if want_err:
+        # a failed stream: C10 does not say that what was emitted before the failure is still handed over (a turn's
+        # batches and its error share one response); what IS handed over is an in-order prefix of what was emitted
+        return _is_prefix(got_idx, want_data) and _is_prefix(got_logs, want_log_text)
+    return got_idx == want_data and got_logs == want_log_text
+
+
+def _replay_http_producer(args: dict) -> str | None:
+    """Real HTTP stack (falcon WSGI app, real tokens, http_connect): iterate the stream, judge what the caller received
+    against what the state itself recorded (no expectation table)."""
+    from vgi_rpc.http import http_connect, make_sync_client
+
+    mrb = args["mrb"]
+    _reset_hold((args["s0"], args["s1"], args["s2"], args["s3"], _FINISH), False)
+    client = make_sync_client(_SERVER, token_key=b"k" * 32, max_response_bytes=mrb if mrb else None, compression_level=None)
+    got: list = []
+    err = None
+    with http_connect(_Proto, client=client, compression_level=None) as proxy:
+        try:
+            for ab in proxy.gen():
+                got.append(ab.batch)
+        except RpcError as e:
+            err = e
+    ev = _HOLD["ev"]
+    if "nothing" in ev:
+        return None  # a producer tick without output: C10 does not say what must happen
+    emitted = [_BATCHES[i] for i in _HOLD["emitted"]]
+    failed = _state_failed(ev, False)
+    problems = []
+    seen = [b.column(0)[0].as_py() - 100 for b in got]
+    in_order_prefix = len(got) <= len(emitted) and all(got[j].equals(emitted[j]) for j in range(len(got)))
+    if not in_order_prefix or (not failed and len(got) != len(emitted)):
+        problems.append("http (max_response_bytes=%s): the producer emitted batches %s%s but the caller iterating the session received %s"
+                        % (mrb or None, _HOLD["emitted"], " and finished" if "finish-accepted" in ev else "", seen))
+    if _HOLD["after_end"]:
+        problems.append("http: the state was processed %d more time(s) after it had finished / failed" % _HOLD["after_end"])
+    if "rewound" in ev:
+        problems.append("http: the client resumed the producer from a stale cursor (steps ran twice: %s)" % _HOLD["emitted"])
+    if _HOLD["cancels"]:
+        problems.append("http: on_cancel ran although the client never cancelled")
+    if (err is not None) != failed:
+        problems.append("http: " + ("an error was reported although the state did not fail: %r" % (err,) if err is not None
+                                    else "the state failed but no error reached the client"))
+    return "; ".join(problems) or None
+
+
+@cond(q=120, t=400, encoded=[aps._run_http_producer_turn, aps._run_http_producer_init, aps._run_stream_exchange_sync, hcl._init_http_stream_session,
+                             hcl.HttpStreamSession.__iter__, hcl.HttpStreamSession._send_continuation, hcl._HttpProxy._make_stream_caller],
+      stubs=["_mint_cursor_token/_unpack_and_recover_state := ideal AEAD: a cursor token opens to the producer position it was minted at",
+             "HTTP client + falcon resources := a POST runs the real route function on the request bytes (refusals answered with the real error stream)", _CLOCK_STUB],
+      replay=_replay_http_producer, signature=lambda a, c: "C10:http-producer:client-iteration-differs-from-emitted",
+      bound="HTTP producer step scripts of <= %d steps over {emit, emit+finish, finish, log+emit, raise%s} then finish; every max_response_bytes in 1..%d or unset (all cuts of the steps into HTTP turns)"
+            % (_NS, "" if _KP == 4 else ", nothing", _MRB_MAX))
+def http_producer_client_receives_script(mrb: int, s0: int, s1: int, s2: int, s3: int) -> bool:
+    """
+    pre: 0 <= mrb <= _MRB_MAX
+    pre: 0 <= s0 <= _KP and 0 <= s1 <= _KP and 0 <= s2 <= _KP and 0 <= s3 <= _KP
+    post: _
+    """
+    return _http_producer_script(mrb, (s0, s1, s2, s3))
+
+
+# ---- (e2) every cancel point of an HTTP producer stream, through the real client session -----------------------
+_NC = pick(3, 4)  # symbolic steps (then finish)
+_TAKE = pick(3, 4)  # batches the caller takes before it cancels
+
+
+def _further_use(it, s) -> list:  # type: ignore[no-untyped-def]
+    """Keep using a cancelled session: the iterator the caller already holds, then a fresh iteration.
+    Returns the batches handed out ("refused" = StopIteration or any exception: the class is not C10's subject)."""
+    late: list = []
+    for src in (it, s):
+        try:
+            for ab in src:
+                late.append(ab.batch)
+        except HarnessModelError:
+            raise
+        except Exception:  # noqa: BLE001
+            pass
+    return late
+
+
+def _http_cancel_point(mrb: int, take: int, cancel_raises: bool, script: tuple) -> bool:
+    full = script + (_FINISH,)
+    _reset_hold(full, cancel_raises)
+    _H["outcomes"] = []
+    del _HP_LOGS[:]
+    _TURN_CLIENT.app = _HttpProdApp(None if mrb == 0 else mrb)
+    try:
+        s = _HTTP_PROXY.gen()
+    except RpcError:
+        return True  # the first turn failed: there is no session to cancel (http_producer_client_receives_script decides this region)
+    except HarnessModelError:
+        raise
+    except Exception:  # noqa: BLE001
+        return False
+    it = iter(s)
+    got: list = []
+    for j in range(_TAKE):
+        if j >= take:
+            break
+        try:
+            got.append(next(it).batch)
+        except (StopIteration, RpcError):
+            break  # the stream ended first: the cancel below is a cancel after the end
+        except HarnessModelError:
+            raise
+        except Exception:  # noqa: BLE001
+            return False
+    # what the caller holds so far is an in-order prefix of what the state emitted
+    emitted = _HOLD["emitted"]
+    if len(got) > len(emitted):
+        return False
+    for j in range(len(got)):
+        if not got[j].equals(_BATCHES[emitted[j]]):
+            return False
+    live = not _HOLD["ended"]  # the state has neither finished nor failed when the cancel is issued
+    calls_before = _HOLD["calls"]
+    try:
+        s.cancel()
+    except HarnessModelError:
+        raise
+    except Exception:  # noqa: BLE001
+        return False  # no error is reported
+    late = _further_use(it, s)
+    # after a cancel the state is never processed again ...
+    if _HOLD["calls"] != calls_before or _HOLD["after_cancel"] != 0:
+        return False
+    # ... its hook runs at most once (and, WIRE_PROTOCOL "Client-initiated cancellation", is invoked for a live stream) ...
+    if _HOLD["cancels"] > 1 or (live and _HOLD["cancels"] != 1):
+        return False
+    # ... and the session refuses further use
+    return late == []
+
+
+def _replay_http_cancel_point(args: dict) -> str | None:
+    """Real HTTP stack (falcon WSGI app, real tokens, http_connect): take some batches, cancel, keep using the session;
+    judged from what the state recorded and what the caller was handed."""
+    from vgi_rpc.http import http_connect, make_sync_client
+
+    mrb, take = args["mrb"], args["take"]
+    _reset_hold((args["s0"], args["s1"], args["s2"], args["s3"])[:_NC] + (_FINISH,), bool(args["cancel_raises"]))
+    client = make_sync_client(_SERVER, token_key=b"k" * 32, max_response_bytes=mrb if mrb else None, compression_level=None)
+    problems = []
+    with http_connect(_Proto, client=client, compression_level=None) as proxy:
+        try:
+            s = proxy.gen()
+        except RpcError:
+            return None  # no session
+        it = iter(s)
+        n_got = 0
+        for _ in range(take):
+            try:
+                next(it)
+                n_got += 1
+            except (StopIteration, RpcError):
+                break
+        if "nothing" in _HOLD["ev"]:
+            return None  # a producer tick without output: C10 does not say what must happen
+        live = not _HOLD["ended"]
+        calls_before = _HOLD["calls"]
+        try:
+            s.cancel()
+        except Exception as e:  # noqa: BLE001
+            problems.append("cancel() reported an error: %r" % (e,))
+        late = _further_use(it, s)
+    where = "http (max_response_bytes=%s), cancel after %d received batch(es)" % (mrb or None, n_got)
+    if _HOLD["calls"] != calls_before or _HOLD["after_cancel"]:
+        problems.append("%s: the state was processed %d more time(s) after the cancel" % (where, _HOLD["calls"] - calls_before))
+    if _HOLD["cancels"] > 1:
+        problems.append("%s: on_cancel ran %d times" % (where, _HOLD["cancels"]))
+    if live and _HOLD["cancels"] == 0:
+        problems.append("%s: on_cancel never ran for a cancel on a live stream" % where)
+    if late:
+        problems.append("%s: the cancelled session still handed out batches %s" % (where, [b.column(0)[0].as_py() - 100 for b in late]))
+    return "; ".join(problems) or None
+
+
+@cond(q=150, t=600, encoded=[hcl.HttpStreamSession.__iter__, hcl.HttpStreamSession.cancel, hcl.HttpStreamSession._send_continuation, hcl._init_http_stream_session,
+                             aps._run_stream_exchange_sync, aps._run_http_producer_turn],
+      stubs=["_mint_cursor_token/_unpack_and_recover_state := ideal AEAD: a cursor token opens to the producer position it was minted at",
+             "HTTP client + falcon resources := a POST runs the real route function on the request bytes (refusals answered with the real error stream)", _CLOCK_STUB],
+      replay=_replay_http_cancel_point, signature=lambda a, c: "C10:http-cancel-point:session-used-or-state-processed-after-cancel",
+      bound="HTTP producer step scripts of <= %d steps then finish; cancel after the caller took 0..%d batches (also after the end of the stream); "
+            "every max_response_bytes in 1..%d or unset; on_cancel raising or not; afterwards the held iterator and a fresh iteration are drained" % (_NC, _TAKE, _MRB_MAX))
+def http_producer_cancel_point(mrb: int, take: int, cancel_raises: bool, s0: int, s1: int, s2: int, s3: int) -> bool:
+    """
+    pre: 0 <= mrb <= _MRB_MAX and 0 <= take <= _TAKE
+    pre: 0 <= s0 <= _KP and 0 <= s1 <= _KP and 0 <= s2 <= _KP and 0 <= s3 <= _KP
+    post: _
+    """
+    return _http_cancel_point(mrb, take, cancel_raises, (s0, s1, s2, s3)[:_NC])
